@@ -192,4 +192,89 @@ theorem c02_wildcard_segments (r : List Char) :
   unfold classifySeg
   simp
 
+/-- **Matching expressions are comparable**: two different expressions that both match a path are ordered by
+specificity one way or the other (so "most specific" is well defined). -/
+theorem c02_specLt_total : ∀ (p q : List PTok) (toks : List Tok) (cp cq : List String),
+    matchCaps p toks = some cp → matchCaps q toks = some cq → p ≠ q →
+    specLt p q = true ∨ specLt q p = true := by
+  intro p
+  induction p with
+  | nil =>
+    intro q toks cp cq hp hq hne
+    cases toks with
+    | nil => cases q with
+      | nil => exact absurd rfl hne
+      | cons a as => cases a <;> simp [matchCaps] at hq
+    | cons t ts => simp [matchCaps] at hp
+  | cons a as ih =>
+    intro q toks cp cq hp hq hne
+    cases toks with
+    | nil => cases a <;> simp [matchCaps] at hp
+    | cons tok rest =>
+      cases q with
+      | nil => simp [matchCaps] at hq
+      | cons b bs =>
+        by_cases hab : a = b
+        · subst hab
+          have hne' : as ≠ bs := fun e => hne (by rw [e])
+          rw [specLt_cons_same, specLt_cons_same]
+          cases a with
+          | lit s =>
+            simp only [matchCaps] at hp hq
+            by_cases hs : s = tokStr tok
+            · simp only [hs, if_true] at hp hq; exact ih bs rest cp cq hp hq hne'
+            · simp [hs] at hp
+          | wild =>
+            cases tok with
+            | sep => simp [matchCaps] at hp
+            | seg sg =>
+              simp only [matchCaps, Option.map_eq_some_iff] at hp hq
+              obtain ⟨c1, h1, _⟩ := hp
+              obtain ⟨c2, h2, _⟩ := hq
+              exact ih bs rest c1 c2 h1 h2 hne'
+          | catchAll =>
+            simp only [matchCaps] at hp hq
+            by_cases h1 : as = []
+            · by_cases h2 : bs = []
+              · exact absurd (h1.trans h2.symm) hne'
+              · simp [h2] at hq
+            · simp [h1] at hp
+        · cases a <;> cases b <;> simp_all [specLt, rank, matchCaps]
+
+/-- **Most specific wins, the converse direction**: if an expression matches, one of its values is accepted, and
+every more specific matching expression has failed with backtracking enabled, then the lookup answers with the first
+accepted value of exactly that expression. -/
+theorem c02_most_specific_complete {V : Type} (m : V → List String → List String → Bool)
+    (t : Table V) (hnd : NodupPats t) (path : List Tok) (n : Node V) (hn : n ∈ t) (caps : List String)
+    (hm : matchCaps n.pat path = some caps) (hacc : accepts m n caps = true)
+    (hall : ∀ n' ∈ t, ∀ caps', matchCaps n'.pat path = some caps' → specLt n'.pat n.pat = true →
+        accepts m n' caps' = false ∧ n'.bt = true) :
+    ∃ f, (find m t path []).1 = some f ∧ f.caps = caps ∧ f.keys = n.keys ∧
+      n.values.find? (fun v => m v n.keys caps) = some f.value := by
+  cases hf : (find m t path []).1 with
+  | none =>
+    obtain ⟨n', hn', caps', hm', hlt, _, hbt⟩ := c02_none_only_if_shadowed m t hnd path hf n hn caps hm hacc
+    have := (hall n' hn' caps' hm' hlt).2
+    rw [hbt] at this; cases this
+  | some f =>
+    obtain ⟨n₁, hn₁, hm₁, hk, hv, hall₁⟩ := c02_most_specific m t hnd path f hf
+    have hacc₁ : accepts m n₁ f.caps = true := by
+      unfold accepts
+      rw [List.any_eq_true]
+      exact ⟨f.value, List.mem_of_find?_eq_some hv, by have := List.find?_some hv; exact this⟩
+    by_cases hpe : n₁.pat = n.pat
+    · have e1 := getNode_of_mem hnd hn₁
+      have e2 := getNode_of_mem hnd hn
+      rw [hpe] at e1
+      have : n₁ = n := by rw [e1] at e2; exact Option.some.inj e2
+      subst this
+      rw [hm] at hm₁
+      have hc : caps = f.caps := Option.some.inj hm₁
+      exact ⟨f, rfl, hc.symm, hk, by rw [hc]; exact hv⟩
+    · rcases c02_specLt_total n₁.pat n.pat path f.caps caps hm₁ hm hpe with h | h
+      · have := (hall n₁ hn₁ f.caps hm₁ h).1
+        rw [hacc₁] at this; cases this
+      · have := (hall₁ n hn caps hm h).1
+        rw [hacc] at this; cases this
+
 end Heimdall.Props.C02
